@@ -48,6 +48,8 @@ AddLevel(d, s, l) == /\ obj[d] = Free /\ obj[s] # Free /\ obj[s].base # "broken"
 Release(s) == /\ obj[s] # Free /\ obj' = [obj EXCEPT ![s] = Free]
               /\ Rec([op |-> "free", a |-> s, b |-> -1, c |-> "-"]) /\ UNCHANGED log
 (* observations and unrelated activity: no content changes *)
+(* verification is under ANY policy: the six predefined ones and user-defined policies assembled from the public rules, with any document *)
+(* hash and input level (a rule may aggregate the chains from the given input level: the chains' output caches are keyed by that level)   *)
 Verify(s) == /\ obj[s] # Free /\ UNCHANGED <<obj, log>> /\ Rec([op |-> "verify", a |-> s, b |-> -1, c |-> "-"])
 Noise(k) == /\ UNCHANGED obj /\ log' = (IF k = "log" THEN (log + 1) % 3 ELSE log) /\ Rec([op |-> "noise", a |-> -1, b |-> -1, c |-> k])
 
